@@ -184,6 +184,11 @@ def o_c14_nav(w, args):
     """stepping on a clone of <f>, from every index"""
     f = w.vars[args[0]]
     inds = list(f.indices())
+    for i in inds:
+        if not f.isIndex(i):
+            return '[indices/not-an-index] indices() = %s lists %r, but isIndex(%r) is false' % (inds, i, i)
+    if inds != sorted(set(inds)):
+        return '[indices/not-ascending] indices() = %s' % inds
     for pos, i in enumerate(inds):
         for what in ('next', 'prev', 'min', 'max'):
             g = _copy.deepcopy(f)
